@@ -68,7 +68,7 @@ func main() {
 					fmt.Fprintln(os.Stderr, "seq", i, sseed)
 				}
 				runSequence(d, st, sseed, nsteps)
-				if len(st.Disagreements) >= 5 {
+				if st.PropertyFailures() >= 2 || len(st.Disagreements) >= 8 {
 					break
 				}
 			}
